@@ -9,7 +9,7 @@ NODE_DEFAULTS = {
 CFG_DEFAULTS = {
     "fam": "", "root": 0, "sinks": ["probe"], "maxData": 2, "maxTop": 3, "maxPull": 2,
     "sinkErr": False, "allowFail": False, "c14": False, "burst": True, "reentrant": False,
-    "passive": False, "thr": [],
+    "passive": False, "thr": [], "maxReact": 1, "cross": False,
 }
 
 
